@@ -75,6 +75,55 @@ func runC08(c *report.Ctx) {
 	checkLongLivedRefs(c)
 	c.Clause("2 late exit notification")
 	checkWatcherGuard(c)
+	checkNoLateWriteOfGenerationState(c)
+}
+
+// checkNoLateWriteOfGenerationState: the invoke goroutine writes the cached init error (state that the
+// reset's Clear wipes) only before it enters Shutdown. Shutdown takes the handler mutex and can therefore
+// return only after a concurrent reset - including its Clear - has completed; a write placed after it would
+// plant the old generation's init error in the new generation.
+func checkNoLateWriteOfGenerationState(c *report.Ctx) {
+	inv := fn(c, rapidcP, "(*Server).Invoke")
+	if inv == nil {
+		return
+	}
+	// the function (Invoke itself or one of its goroutines) that shuts down after a failed init
+	var g *ssa.Function
+	var walk func(f *ssa.Function)
+	walk = func(f *ssa.Function) {
+		if g == nil && len(an.CallsTo(f, srvT+".Shutdown")) > 0 {
+			g = f
+		}
+		for _, a := range f.AnonFuncs {
+			walk(a)
+		}
+	}
+	walk(inv)
+	if g == nil {
+		c.Unresolved("ANCHOR", "L/rapidcore.Server.Invoke/shutdown-after-failed-init", "no call of Server.Shutdown in Invoke or its goroutines")
+		return
+	}
+	sh := an.CallsTo(g, srvT+".Shutdown")
+	isSh := map[ssa.Instruction]bool{}
+	for _, s := range sh {
+		isSh[s] = true
+	}
+	ord := an.NewOrder(g, func(in ssa.Instruction) uint64 {
+		if isSh[in] {
+			return 1
+		}
+		return 0
+	})
+	sets := an.CallsTo(g, srvT+".setCachedInitErrorResponse")
+	ok := true
+	pos := fpos(g)
+	for _, st := range sets {
+		if _, may := ord.Before(st); may&1 != 0 {
+			ok = false
+			pos = an.InstrPos(st)
+		}
+	}
+	c.Check("R-ORDER", an.FuncName(g)+"/generation-state-written-before-shutdown", "the invoke goroutine caches the init error before it calls Shutdown, never after (Shutdown waits for the handler mutex, i.e. possibly for a whole reset including the Clear that wipes the cache)", ok && len(sets) >= 1 && len(sh) >= 1, pos, len(sets)+len(sh), "cache writes: %d, Shutdown calls: %d, a write possibly after Shutdown: %v", len(sets), len(sh), !ok)
 }
 
 // mutatesRecv: does fn (a method) write through its receiver?
@@ -391,6 +440,37 @@ func checkCarrier(c *report.Ctx, cr carrier) {
 			if !match {
 				ok = false
 				detail += sprintf("; initial value class %q is not what the reset path restores", init)
+			}
+		}
+		// where a reset root stores the field itself, the store must lie on every path to every exit of that
+		// root (a reset that re-initialises a field only under some condition leaves the old generation's value
+		// behind on the other paths)
+		if ok {
+			for _, f := range repoFuncs(c) {
+				if !oneOf(an.FuncName(f), cr.resetRoots...) {
+					continue
+				}
+				sts := an.Stores(f, T, fld)
+				if len(sts) == 0 {
+					continue
+				}
+				isSt := map[ssa.Instruction]bool{}
+				for _, st := range sts {
+					isSt[st] = true
+				}
+				ord := an.NewOrder(f, func(in ssa.Instruction) uint64 {
+					if isSt[in] {
+						return 1
+					}
+					return 0
+				})
+				for _, e := range an.Exits(f) {
+					if must, _ := ord.Before(e.Ret); must&1 == 0 {
+						ok = false
+						detail += sprintf("; %s re-initialises the field only on some of its paths", an.FuncName(f))
+						break
+					}
+				}
 			}
 		}
 		c.Check("R-RESET", key, "a field that any function writes after construction is re-initialised on the reset path with the constructor's initial value (else a reset instance differs from a fresh one)", ok, fv.Pos(), len(writers)+len(rv), "%s", detail)
